@@ -35,6 +35,7 @@ RULE = (
     "Non-trivial: the bad/fault row lies on a boundary (header, header+1, limit, limit+1; for faults also "
     "header+limit, header+limit+1). Distinct by construction."
     "Limits also 2^31 and 2^64."
+    "Bad rows include a row without any item (an empty line)."
 )
 ASSUMPTIONS = [
     "a fresh Cid is loaded for every run (carry-over between runs is property C08)",
